@@ -82,6 +82,20 @@ def tree(rng, path=(), lower=True, dens=0.55):
     return d
 
 
+def share_variant(rng, data):
+    """make ONE dict object sit at two key paths of this level's data (a.a and b.b: both sections whose common leaves
+    are `a` and `c`); returns the sharing description [[src path, dst path]]"""
+    common = {k: leaf(rng, ("a", "a", k)) for k in rng.sample(["a", "c"], rng.randint(1, 2))}
+    for top in rng.sample(["a", "b"], 2):  # (insertion order decides which occurrence is walked second)
+        if not isinstance(data.get(top), dict):
+            data[top] = {}
+        data[top] = dict(data.pop(top))
+    data["a"]["a"] = common
+    data["b"]["b"] = copy.deepcopy(common)
+    pairs = [[["a", "a"], ["b", "b"]]] if rng.random() < 0.5 else [[["b", "b"], ["a", "a"]]]
+    return {"pairs": pairs, "top": list(data)}
+
+
 def sections(t, pre=()):
     out = [pre]
     for k, v in t.items():
@@ -102,13 +116,16 @@ def gen_env(rng, t):
 
 
 def gen_history(rng, maxlen=40, risky=0.03, files=False, clone_p=0.03, into_p=0.0, coll_p=0.0, max_objs=3,
-                classes=None, reload_p=0.17, levels=False, focus=0.0, dictwrites=True):
+                classes=None, reload_p=0.17, levels=False, focus=0.0, dictwrites=True, share_p=0.0):
     """random history guided by a reference simulation (independent of the implementation)"""
     ops = [{"o": 0, "op": "NEW", "defaults": tree(rng), "overrides": tree(rng, dens=0.3)}]
     if files:
         ops[0]["op"] = "NEWF"
         for s in ("system", "user", "project", "runtime"):
             ops[0][s] = tree(rng, dens=0.4) if rng.random() < 0.7 else None
+    for fld in ("defaults", "overrides", "system", "user", "project", "runtime"):
+        if isinstance(ops[0].get(fld), dict) and rng.random() < share_p:
+            ops[0].setdefault("share", {})[fld] = share_variant(rng, ops[0][fld])
     refs = [cfglib.new_ref(ops[0])]
     n = rng.randint(3, maxlen)
     while len(ops) < n:
@@ -237,6 +254,9 @@ def gen_history(rng, maxlen=40, risky=0.03, files=False, clone_p=0.03, into_p=0.
                 if op["op"] in ("LEN", "KEYS", "ITER", "ITEMS"):
                     del op["k"]
         for op in [op] + extra:
+            if op["op"] in ("LOAD", "LOADU", "RUNTIME", "PROJECT") and isinstance(op.get("data"), dict) \
+                    and not op.get("via_coll") and rng.random() < share_p:
+                op["share"] = {"data": share_variant(rng, op["data"])}
             ops.append(op)
             try:
                 if op["op"] == "CLONE":
@@ -294,7 +314,7 @@ def gen_handle_history(rng, maxlen=24, files=False, clone_p=0.1, levels="nofiles
     # (no dict-valued writes here: a written dict is stored BY REFERENCE in the modifications and, until the next
     # re-merge, in the cache object - a stale handle would alias it; the cached model copies values)
     base = gen_history(rng, maxlen=maxlen, risky=0.02, files=files, clone_p=clone_p, max_objs=3, reload_p=0.2, levels=levels,
-                       focus=0.6, dictwrites=False)
+                       focus=0.6, dictwrites=False, share_p=0.1)
     out, refs, handles = [], [], []
 
     def weave():
@@ -602,7 +622,7 @@ def run(ctx):
             hists.append(("small", ops))
     out.exhaustive = True
     for _ in range(ctx.n(1200, 30000)):
-        hists.append(("random", gen_history(rng)))
+        hists.append(("random", gen_history(rng, share_p=0.1)))
     for _ in range(ctx.n(150, 3000)):
         hists.append(("risky", gen_history(rng, maxlen=12, risky=0.5)))
     ran, lines, impl_rows = [], [], []
@@ -612,6 +632,7 @@ def run(ctx):
         muts = [r for o, r in zip(ops2, results) if o["op"] in cfglib.MUTATORS and not r.startswith("E:")]
         out.case(case, bool(muts))
         out.hist["hist_" + tag] += 1
+        out.hist["levels_with_shared_subobject"] += sum(len(o.get("share", {})) for o in ops2)
         out.hist["ops"] += len(ops2)
         for o, r in zip(ops2, results):
             out.hist["op_" + o["op"] + ("_err" if r.startswith("E:") else "")] += 1
